@@ -82,8 +82,8 @@ Qed.
 
 Lemma In_fails_step : forall m e c, In c (fails (mon_step m e)) -> In c (fails m) \/ In c (codes_of e).
 Proof.
-  intros m e c H. destruct e; cbn [codes_of];
-    try (lazymatch type of H with context [TRet] => fail | _ => left; exact H end).
+  intros m e c H. destruct e; cbn [codes_of].
+  - (* TInit *) left; exact H.
   - unfold mon_step in H. cbv zeta in H. fails_inv H.
     apply In_fails_on_call in H. destruct H as [H|[H|[]]]; [left; assumption|right; subst; cbn; tauto].
   - unfold mon_step in H. cbv zeta in H. fails_inv H.
@@ -94,21 +94,25 @@ Proof.
     apply In_fails_on_call in H. destruct H as [H|[H|[]]]; [left; assumption|right; subst; cbn; tauto].
   - unfold mon_step in H. cbv zeta in H. fails_inv H.
     apply In_fails_on_call in H. destruct H as [H|[H|[]]]; [left; assumption|right; subst; cbn; tauto].
-  - unfold mon_step in H. cbv zeta in H. fails_inv H.
+  - (* TWait *) unfold mon_step in H. cbv zeta in H. fails_inv H.
     apply In_fails_close in H. destruct H as [H|H]; [left; assumption|right; cbn in *; tauto].
-  - destruct n as [n|].
+  - (* TRet *) destruct n as [n|].
     + destruct (in_dec Z.eq_dec c [202; 203; 705; 602; 708; 902; 403; 404; 407]) as [I|NI]; [right; exact I|].
       destruct (in_dec Z.eq_dec c (fails m)) as [I|NF0]; [left; exact I|].
       exfalso. exact (NF_TRet_some m n fds clk c NF0 NI H).
     + unfold mon_step in H. cbv zeta in H. fails_inv H. left; exact H.
-  - cbn [mon_step] in H. rewrite fails_action in H. left; exact H.
-  - unfold mon_step in H. destruct (rc =? 0); [|left; exact H].
+  - (* TAct *) cbn [mon_step] in H. rewrite fails_action in H. left; exact H.
+  - (* TMain *) left; exact H.
+  - (* TKTfd *) left; exact H.
+  - (* TKClose *) left; exact H.
+  - (* TRes *) unfold mon_step in H. destruct (rc =? 0); [|left; exact H].
     destruct (kind =? 0); [left; exact H|]. destruct (kind =? 1); left; exact H.
-  - unfold mon_step in H. cbv zeta in H. fails_inv H.
+  - (* TEnd *) unfold mon_step in H. cbv zeta in H. fails_inv H.
     apply In_fails_close in H. destruct H as [H|H]; [left; assumption|right; cbn in *; tauto].
   - unfold mon_step in H. fails_inv H. left; exact H.
   - unfold mon_step in H. fails_inv H. left; exact H.
-  - unfold mon_step in H. fails_inv H. left; exact H.
+  - (* TLimit *) left; exact H.
+  - (* THang *) unfold mon_step in H. cbv zeta in H. fails_inv H. left; exact H.
   - unfold mon_step in H. fails_inv H. left; exact H.
   - unfold mon_step in H. fails_inv H. left; exact H.
 Qed.
